@@ -6,4 +6,4 @@ NONTRIVIAL = {"C01": ["dec_ok", "key_creations"], "C02": ["faulted_ops", "key_cr
               "C09": ["key_creations", "faulted_ops", "metastore_reads"], "C10": ["metastore_reads", "dec_ok"], "C20": ["enc_ok", "dec_ok"]}
 
 def run(ctx):
-    return envelope.run(ctx, "C02", ["AsherahVerif.Props.C02"], NONTRIVIAL["C02"], modes=(('faults',), ('faultpairs',)))
+    return envelope.run(ctx, "C02", ["AsherahVerif.Props.C02", "AsherahVerif.Props.Compose"], NONTRIVIAL["C02"], modes=(('faults',), ('faultpairs',)))
